@@ -35,6 +35,43 @@ def bin_oracle(k, out):
     return fails
 
 
+def operator_table_oracle():
+    """the mode -> vigilance-test table of C03_operator_table against the implementation: MT+, MT- and MT1 test M >= rho,
+    MT0 and MT~ test M > rho (what the tie M == rho decides); for every estimator class that carries the table"""
+    import contextlib, io
+    import artlib
+    from artlib.cvi.iCVIFuzzyArt import iCVIFuzzyART
+    fails = []
+    fz = lambda: artlib.FuzzyART(0.5, 1e-3, 1.0)
+    with contextlib.redirect_stdout(io.StringIO()):
+        ests = [fz(), artlib.ART1(0.5, 2.0), artlib.ART2A(0.5, 0.1, 1.0), artlib.HypersphereART(0.5, 1e-3, 1.0, 1.0), artlib.EllipsoidART(0.5, 1e-3, 1.0, 0.8, 1.0),
+                artlib.GaussianART(0.5, np.ones(2)), artlib.BayesianART(0.5, np.eye(2)), artlib.QuadraticNeuronART(0.5, 1.0, 0.1, 0.1, 0.1),
+                artlib.FusionART([fz(), fz()], [0.5, 0.5], [2, 2]), artlib.DualVigilanceART(fz(), 0.25), artlib.TopoART(fz(), 0.5, 5, 2), artlib.CVIART(fz(), 1),
+                iCVIFuzzyART(0.5, 1e-3, 1.0, 1)]
+    strict = {"MT+": False, "MT-": False, "MT1": False, "MT0": True, "MT~": True}
+    for est in ests:
+        f = getattr(est, "_match_tracking_operator", None)
+        if f is None:
+            continue
+        for mode, st in strict.items():
+            try:
+                op = f(mode)
+                got = (bool(op(1.0, 1.0)), bool(op(2.0, 1.0)), bool(op(1.0, 2.0)))
+            except Exception as e:
+                got = f"{type(e).__name__}"
+            if got != (not st, True, False):
+                fails.append({"signature": "BaseART/_match_tracking_operator", "text": f"{type(est).__name__}: mode {mode} tests (M==rho, M>rho, M<rho) -> {got}, the table prescribes {(not st, True, False)}",
+                              "replay": {"estimator": type(est).__name__, "mode": mode, "how": "est._match_tracking_operator(mode)(M, rho) at M == rho, M > rho, M < rho"}})
+        try:
+            f("MT?")
+            fails.append({"signature": "BaseART/_match_tracking_operator", "text": f"{type(est).__name__}: an unknown mode is accepted", "replay": {"estimator": type(est).__name__, "mode": "MT?"}})
+        except ValueError:
+            pass
+        except Exception:
+            pass
+    return fails
+
+
 def bookkeeping_oracle(k, o):
     """the published rules are functions of the sample, the weight(s) and the hyper-parameters: the same well-formed
     weights in a model whose training book-keeping (counters, labels) was cleared give the same values"""
@@ -155,6 +192,7 @@ def main():
     rng = C.make_rng(seed, "C03")
     n = 800 if tier == "quick" else 8000
     calls, outs, strs, summ, fails = [], [], [], [], []
+    fails.extend(operator_table_oracle())
     stats = {"kinds": {}, "undefined_outputs": 0, "impure": 0}
     tries = 0
     while len(calls) < n and tries < 5 * n:
